@@ -5,6 +5,7 @@
 //!                                        crash / torn / power-loss state from the trace, start the
 //!                                        real engine on it (strict recovery) and check the oracle
 //!   c01 --out DIR --replay FILE          re-run one recorded failing state
+mod abs;
 use kvh::rng::Rng;
 use kvh_pers::eng;
 use kvh_pers::hist::*;
@@ -39,7 +40,12 @@ fn child(hist_path: &str, dir: &str) {
         };
         shim::mark(&format!("ACK {} {}", i, json!({"out": out, "stored": stored})));
     }
+    if let Ok(ms) = std::env::var("C01_IDLE_MS") {
+        // directed periodic-fsync scenario: stay idle (engine alive) before the power loss
+        std::thread::sleep(std::time::Duration::from_millis(ms.parse().unwrap_or(0)));
+    }
     shim::mark("END");
+    drop(be);
     // no clean shutdown work: drop happens here
 }
 
@@ -133,6 +139,10 @@ struct HistResult {
     kinds: BTreeMap<String, u64>,
     effect_kinds: BTreeMap<String, u64>,
     midop_states: u64,
+    /// abstracted real effects: [0] = first start-up, [i+1] = ops[i]
+    abs_ops: Vec<Vec<abs::AEff>>,
+    /// sampled kill crash points: (model effect index, torn, recovered census or error)
+    starts: Vec<(usize, bool, Result<Census, String>)>,
 }
 
 /// Allowed censuses at crash point k: shadow(acked) and shadow(acked + in-flight).
@@ -178,13 +188,19 @@ fn expectations(h: &History, sp: &[OpSpan], k: usize) -> (Census, Option<Census>
 fn check_history(h: &History, work: &Path, tag: &str, tier: &str) -> HistResult {
     let (_dir, t) = run_child(h, work, tag, None);
     let sp = spans(&t, h.ops.len());
-    let mut res = HistResult { states: 0, distinct_states: 0, recoveries: 0, effects: t.evs.len(), fails: vec![], kinds: BTreeMap::new(), effect_kinds: BTreeMap::new(), midop_states: 0 };
+    let mut res = HistResult { states: 0, distinct_states: 0, recoveries: 0, effects: t.evs.len(), fails: vec![], kinds: BTreeMap::new(), effect_kinds: BTreeMap::new(), midop_states: 0, abs_ops: vec![], starts: vec![] };
     for e in &t.evs { *res.effect_kinds.entry(e.kind.clone()).or_insert(0) += 1; }
     let full_ok = sp.len() == h.ops.len() + 1 && sp.iter().all(|s| s.ack_after.is_some());
     if !full_ok {
         res.fails.push(Fail { why: "uncrashed run did not complete every operation".into(), class: None, detail: json!({"spans": sp.len(), "ops": h.ops.len()}) });
         return res;
     }
+    let ab = abs::abstract_trace(&t);
+    for s in &sp {
+        let (b, e) = (s.begin_after, s.ack_after.unwrap_or(t.evs.len()));
+        res.abs_ops.push((0..ab.effs.len()).filter(|&j| ab.first_real[j] >= b && ab.first_real[j] < e).map(|j| ab.effs[j].clone()).collect());
+    }
+    let max_samples = if tier == "thorough" { 60 } else { 24 };
     let always = h.cfg.fsync == "always";
     let mut cache: HashMap<u64, Result<Census, String>> = HashMap::new();
     let scratch = work.join(format!("{}_crash", tag));
@@ -235,6 +251,10 @@ fn check_history(h: &History, work: &Path, tag: &str, tier: &str) -> HistResult 
                 r
             }
         };
+        if loss == Loss::Kill && res.starts.len() < max_samples && (res.states % 7 == 3 || torn.is_some() && res.states % 5 == 0) {
+            let (n, partial) = abs::model_point(&ab, k, torn.is_some());
+            res.starts.push((n, partial, rec.clone()));
+        }
         let ok = match &rec {
             Ok(c) => *c == acked || with.as_ref().map(|w| c == w).unwrap_or(false),
             Err(_) => false,
@@ -271,6 +291,108 @@ fn check_history(h: &History, work: &Path, tag: &str, tier: &str) -> HistResult 
     res
 }
 
+
+// ------------------------------------------------------------------------------------------------
+// Correspondence with Model/Backend.v + Model/Crash.v (evaluated by coqc): per history the REAL effect
+// sequence of every operation, and sampled real start-ups on crash states
+// ------------------------------------------------------------------------------------------------
+
+fn coq_meta(m: &Meta, it: &mut kvh_c02lib::Intern) -> String {
+    let v: kvh_c02lib::Meta = m.iter().map(|(k, v)| (k.clone(), v.clone())).collect();
+    it.meta(&kvh_c02lib::canon_meta(&v))
+}
+
+fn coq_history(id: usize, full: bool, h: &History, r: &HistResult, it: &mut kvh_c02lib::Intern) -> String {
+    let metric = kvh_c02lib::metric_code(&h.cfg.metric);
+    let mut ops = vec![];
+    for o in &h.ops {
+        ops.push(match o {
+            Op::Insert { id, vec, meta } => {
+                let b = bits(vec);
+                if b.len() == h.cfg.dim { it.note_insert(metric, &b) }
+                format!("OInsert {} {} {}", id, it.v(&b), coq_meta(meta, it))
+            }
+            Op::InsertBits { id, bits: b, meta } => {
+                if b.len() == h.cfg.dim { it.note_insert(metric, b) }
+                format!("OInsert {} {} {}", id, it.v(b), coq_meta(meta, it))
+            }
+            Op::Delete { id } => format!("ODelete {}", id),
+            Op::BatchDelete { ids } => format!("OBatchDelete [{}]", ids.iter().map(|x| x.to_string()).collect::<Vec<_>>().join("; ")),
+            Op::UpdateMeta { id, meta, merge } => format!("OUpdate {} {} {}", id, coq_meta(meta, it), merge),
+            Op::Snapshot => "OSnapshot".into(),
+            Op::Restart => "ORestart".into(),
+        });
+    }
+    let effs = |l: &Vec<abs::AEff>, it: &mut kvh_c02lib::Intern| format!("[{}]", l.iter().map(|e| abs::coq_eff(e, it)).collect::<Vec<_>>().join("; "));
+    let e0 = effs(&r.abs_ops[0], it);
+    let eops: Vec<String> = r.abs_ops[1..].iter().map(|l| effs(l, it)).collect();
+    let starts: Vec<String> = r.starts.iter().map(|(n, torn, rec)| {
+        let cen = match rec {
+            Err(_) => "None".to_string(),
+            Ok(c) => format!("(Some [{}])", c.iter().map(|(id, (v, m))| format!("({}, D {} {})", id, it.v(v), coq_meta(m, it))).collect::<Vec<_>>().join("; ")),
+        };
+        format!("({}%nat, {}, {})", n, torn, cen)
+    }).collect();
+    format!(
+        "({}, {}, {},\n   [{}],\n   {},\n   [{}],\n   [{}])",
+        id, full,
+        it.cfg(metric, h.cfg.dim, h.cfg.snapshot_interval, h.cfg.max_wal_bytes, h.cfg.capacity, &h.cfg.fsync),
+        ops.join("; "), e0, eops.join(";\n    "), starts.join("; ")
+    )
+}
+
+fn coq_cases_file(body: &str, it: &kvh_c02lib::Intern) -> String {
+    let mut s = it.prelude("From Coq Require Import List NArith ZArith Bool.\nFrom Kyro Require Import Model.Amap Model.Backend Model.Crash.\nImport ListNotations.\nOpen Scope N_scope.\n");
+    s.push_str("Definition chk (h : N * bool * cfg * list op * list eff * list (list eff) * list (nat * bool * option store)) : list (N * N) :=\n  match h with (id, full, c, ops, o0, os, st) =>\n    let '(a, b, k, p) := check_c01 full c ops o0 os st in\n    (match a with Some i => [(id, 1000000 + i)] | None => [] end)\n    ++ map (fun n => (id, 2000000 + N.of_nat n)) b\n    ++ map (fun x : nat * bool => (id, 3000000 + N.of_nat (fst x))) k\n    ++ map (fun x : nat * nat => (id, 4000000 + N.of_nat (fst x))) p\n  end.\n");
+    s.push_str("Goal True. idtac \"@@res\". Abort.\n");
+    s.push_str(&format!("Eval vm_compute in (let hs : list (N * bool * cfg * list op * list eff * list (list eff) * list (nat * bool * option store)) := [\n  {}\n] in (N.of_nat (length hs), flat_map chk hs)).\n", body));
+    s
+}
+
+/// Directed scenario for the periodic-fsync clause: Periodic(50 ms), one acknowledged insert, idle for
+/// 200 ms, power loss (un-synced bytes and directory changes dropped).  Is the acknowledged write lost?
+fn periodic_idle_tail(work: &Path) -> serde_json::Value {
+    let cfg = Cfg { dim: 2, metric: "euclidean".into(), capacity: 64, snapshot_interval: 0, max_wal_bytes: 1 << 20, fsync: "periodic:50".into() };
+    let mut meta = Meta::new();
+    meta.insert("k".into(), "a".into());
+    let h = History { cfg: cfg.clone(), ops: vec![Op::Insert { id: 1, vec: vec![1.0, 2.0], meta: meta.clone() }, Op::Insert { id: 2, vec: vec![0.5, 0.25], meta }] };
+    let hp = work.join("periodic_hist.json");
+    let dir = work.join("periodic_data");
+    let _ = std::fs::remove_dir_all(&dir);
+    std::fs::create_dir_all(&dir).unwrap();
+    std::fs::write(&hp, serde_json::to_string(&h).unwrap()).unwrap();
+    let log = work.join("periodic_trace.log");
+    let _ = std::fs::remove_file(&log);
+    let _ = std::fs::remove_file(format!("{}.data", log.display()));
+    let _ = Command::new(std::env::current_exe().unwrap())
+        .arg("child").arg(&hp).arg(&dir)
+        .env("C01_IDLE_MS", "200")
+        .env("LD_PRELOAD", SHIM).env("FSSHIM_PREFIX", dir.to_str().unwrap()).env("FSSHIM_LOG", log.to_str().unwrap())
+        .env("FSSHIM_LOGDATA", "1").env("RUST_LOG", "off")
+        .stdout(std::process::Stdio::null()).stderr(std::process::Stdio::null()).status();
+    let t = vfs::parse(&log, dir.to_str().unwrap());
+    let sp = spans(&t, h.ops.len());
+    let complete = sp.len() == 3 && sp.iter().all(|s| s.ack_after.is_some());
+    let v = vfs::state_at(&t, t.evs.len(), None);
+    let scratch = work.join("periodic_crash");
+    let mut out = serde_json::Map::new();
+    for (name, loss) in [("kill", Loss::Kill), ("power_all", Loss::PowerAll)] {
+        vfs::materialise(&v.view(loss), &scratch).unwrap();
+        let rec = recover_census(&cfg, &scratch);
+        out.insert(name.into(), match rec { Ok(c) => json!({"recovered_ids": c.keys().collect::<Vec<_>>()}), Err(e) => json!({"error": e}) });
+    }
+    let _ = std::fs::remove_dir_all(&scratch);
+    let wal_syncs_after_first_insert = sp.get(1).map(|s| t.evs[s.begin_after..].iter().filter(|e| (e.kind == "fsync" || e.kind == "fdatasync") && e.path.starts_with("wal_")).count()).unwrap_or(0);
+    let lost = out.get("power_all").and_then(|x| x.get("recovered_ids")).map(|ids| ids.as_array().map(|a| a.len() < 2).unwrap_or(true)).unwrap_or(true);
+    json!({
+        "scenario": "fsync=Periodic(50ms); insert 1; insert 2 (both acknowledged); idle 200 ms; power loss",
+        "complete": complete, "acked_ops": 2, "idle_ms": 200,
+        "wal_syncs_issued_after_first_insert": wal_syncs_after_first_insert,
+        "views": out, "acked_write_lost_on_power_loss": lost,
+        "class": if lost { json!("C01-periodic-idle-tail-never-synced") } else { json!(null) },
+    })
+}
+
 fn main() {
     let args: Vec<String> = std::env::args().collect();
     if args.len() >= 4 && args[1] == "child" {
@@ -295,10 +417,14 @@ fn main() {
     let work = PathBuf::from(&out);
     std::fs::create_dir_all(&work).unwrap();
     let mut hists: Vec<History> = vec![];
+    let mut replay_periodic = false;
     if let Some(p) = &replay {
         let v: serde_json::Value = serde_json::from_str(&std::fs::read_to_string(p).unwrap()).unwrap();
-        let hv = if v.get("detail").is_some() { v["detail"]["history"].clone() } else if v.get("history").is_some() { v["history"].clone() } else { v };
-        hists.push(serde_json::from_value(hv).unwrap());
+        if v.get("detail").and_then(|d| d.get("scenario")).is_some() {
+            replay_periodic = true; // the directed periodic-fsync scenario: no history to re-enumerate
+        }
+        let hv = if replay_periodic { json!(null) } else if v.get("detail").is_some() { v["detail"]["history"].clone() } else if v.get("history").is_some() { v["history"].clone() } else { v };
+        if !replay_periodic { hists.push(serde_json::from_value(hv).unwrap()); }
     } else {
         if let Ok(rd) = std::fs::read_dir("/verif/corpus/C01") {
             let mut ps: Vec<_> = rd.filter_map(|e| e.ok()).map(|e| e.path()).collect();
@@ -346,7 +472,42 @@ fn main() {
     }
     let mut opk: BTreeMap<String, u64> = BTreeMap::new();
     for h in &hists { for o in &h.ops { let k = match o { Op::Insert{..}|Op::InsertBits{..}=>"insert", Op::Delete{..}=>"delete", Op::BatchDelete{..}=>"batch_delete", Op::UpdateMeta{..}=>"update_metadata", Op::Snapshot=>"snapshot", Op::Restart=>"restart" }; *opk.entry(k.into()).or_insert(0) += 1 } }
+    // Coq cases (5 histories per shard)
+    let mut it = kvh_c02lib::Intern::default();
+    let mut bodies: Vec<Vec<String>> = vec![];
+    let mut coq_histories = 0usize;
+    let mut coq_oracle_histories = 0usize;
+    let mut start_samples = 0usize;
+    let mut ops_compared = 0usize;
+    for (j, r) in &results {
+        if r.abs_ops.len() != hists[*j].ops.len() + 1 { continue }
+        if coq_histories % 5 == 0 { bodies.push(vec![]) }
+        // the model's own oracles at every crash index are quadratic: 2 of 5 histories per shard in the quick tier
+        let full = tier == "thorough" || coq_histories % 5 < 2;
+        if full { coq_oracle_histories += 1 }
+        bodies.last_mut().unwrap().push(coq_history(*j, full, &hists[*j], r, &mut it));
+        coq_histories += 1;
+        start_samples += r.starts.len();
+        ops_compared += r.abs_ops.len();
+    }
+    let mut k = 0;
+    while work.join(format!("cases_{}.v", k)).exists() { let _ = std::fs::remove_file(work.join(format!("cases_{}.v", k))); k += 1 }
+    for (k, b) in bodies.iter().enumerate() {
+        std::fs::write(work.join(format!("cases_{}.v", k)), coq_cases_file(&b.join(";\n  "), &it)).unwrap();
+    }
+    let periodic = if replay.is_none() || replay_periodic { periodic_idle_tail(&work) } else { json!(null) };
+    if periodic.get("acked_write_lost_on_power_loss").and_then(|x| x.as_bool()).unwrap_or(false) {
+        fails.push(json!({
+            "history_index": null,
+            "why": "periodic fsync: a write acknowledged 200 ms (4 flush intervals) before a power loss is lost - nothing syncs an idle WAL tail",
+            "class": periodic["class"], "detail": periodic,
+        }));
+    }
     let summary = json!({
+        "coq_shards": bodies.len(), "coq_histories": coq_histories, "coq_model_oracle_histories": coq_oracle_histories, "coq_start_samples": start_samples,
+        "coq_op_effect_lists_compared": ops_compared,
+        "norm_idem_checked": it.idem_checked, "norm_idem_failures": it.idem_failed,
+        "periodic_idle_tail": periodic,
         "histories": hists.len(), "effects": effects, "states": states, "distinct_states": distinct,
         "recoveries": recov, "mid_operation_states": midop, "state_kinds": kinds, "effect_kinds": ekinds, "op_kinds": opk,
         "failures": fails.len(),
